@@ -2,8 +2,9 @@
    Fragment (see Sem/Schema.v): strings (length bounds in code points, enum), integers (bounds incl. exclusive, multipleOf,
    enum), booleans, arrays (item schema, item counts, uniqueness of scalar items), maps, objects with required and
    optional properties at any depth; references inlined.  Excluded (exercised by the harness only): formats, patterns,
-   numbers, allOf, additionalProperties next to properties, property counts, defaults, readOnly, x-nullable. *)
-From GS Require Import Base.Str Base.Json Sem.Schema Sem.SchemaLemmas.
+   numbers, allOf, additionalProperties next to properties, defaults, readOnly, x-nullable.
+   Property counts: Sem/PropCount.v (below). *)
+From GS Require Import Base.Str Base.Json Sem.Schema Sem.SchemaLemmas Sem.PropCount.
 
 (* decoding the document into the generated type and calling Validate succeeds exactly when the reference accepts the
    document in which the documented zero values are treated as absent — for every schema of the fragment, every
@@ -37,3 +38,29 @@ Example C02_nonvacuous :
   wf ex_schema ex_doc = true /\ gen_accepts ex_schema ex_doc = true /\ ref_valid ex_schema ex_doc = false /\
   ref_valid ex_schema (erase ex_schema ex_doc) = true.
 Proof. repeat split; vm_compute; reflexivity. Qed.
+
+(* ---------- minProperties / maxProperties ---------- *)
+(* the generated Validate counts the members of the value marshalled back from the decoded struct, the reference counts
+   the members of the document.  On documents whose members are exactly the declared properties that marshalling keeps
+   ([plain]: nothing undeclared, no optional member holding a zero value or an empty map, no absent array or required
+   member) the two verdicts are the same *)
+Theorem C02_property_counts_agree : forall ps mn mx l,
+  NoDup (map pname ps) -> NoDup (map fst l) -> plain ps l = true ->
+  gen_counts ps mn mx (JObj l) = ref_counts mn mx (JObj l).
+Proof. exact counts_agree. Qed.
+Print Assumptions C02_property_counts_agree.
+
+(* off that set they differ in both directions, on the model as on the unchanged generator
+   (known findings c02/generated-accepts-invalid|generated-rejects-valid[property-count-of-remarshalled-object]) *)
+Example C02_property_counts_refuted :
+  (exists ps d, ref_counts (Some 1%Z) (Some 3%Z) d = false /\ gen_counts ps (Some 1%Z) (Some 3%Z) d = true) /\
+  (exists ps d, ref_counts (Some 1%Z) (Some 3%Z) d = true /\ gen_counts ps (Some 1%Z) (Some 3%Z) d = false).
+Proof.
+  split; eexists; eexists; [exact counts_refuted_accepts_invalid | exact counts_refuted_rejects_valid].
+Qed.
+
+Example C02_property_counts_nonvacuous :
+  let ps := [(s "a", true, SStr None None []); (s "b", false, SInt None false None false None []); (s "m", false, SMap SBool)] in
+  let l := [(s "a", JStr (s "x")); (s "m", JObj [(s "k", JBool true)])] in
+  plain ps l = true /\ gen_counts ps (Some 2%Z) (Some 2%Z) (JObj l) = true.
+Proof. split; vm_compute; reflexivity. Qed.
